@@ -661,8 +661,8 @@ func sizesFor(thorough bool) sizes {
 		// N covers (key 0, i=33003) and (key 2, i=4870): proofs with two leading zero bytes
 		return sizes{N: 40960, B: 48, A: 32, K: 64, Q: 64, lzCap: 8}
 	}
-	// N covers (key 2, i=4870): a proof with two leading zero bytes
-	return sizes{N: 5120, B: 4, A: 4, K: 16, Q: 8, lzCap: 1}
+	// ~24 proofs with one leading zero byte (17 within the first 1024 messages per key); two leading zero bytes: thorough only
+	return sizes{N: 2048, B: 4, A: 4, K: 16, Q: 8, lzCap: 1}
 }
 
 func runFlips(c *fw.Ctx, b *base) bool {
